@@ -25,15 +25,15 @@ type E struct {
 	A []*E   `json:"a,omitempty"`
 }
 
-func num(s string) *E            { return &E{K: "num", V: s} }
-func str(src string) *E          { return &E{K: "str", V: src} }
-func boolean(s string) *E        { return &E{K: "bool", V: s} }
-func ref(s string) *E            { return &E{K: "ref", V: s} }
-func neg(a *E) *E                { return &E{K: "neg", A: []*E{a}} }
-func par(a *E) *E                { return &E{K: "par", A: []*E{a}} }
-func bin(op string, a, b *E) *E  { return &E{K: "bin", V: op, A: []*E{a, b}} }
-func call(f string, a ...*E) *E  { return &E{K: "call", V: f, A: a} }
-func (e *E) isLeaf() bool        { return e.K == "num" || e.K == "str" || e.K == "bool" || e.K == "ref" }
+func num(s string) *E           { return &E{K: "num", V: s} }
+func str(src string) *E         { return &E{K: "str", V: src} }
+func boolean(s string) *E       { return &E{K: "bool", V: s} }
+func ref(s string) *E           { return &E{K: "ref", V: s} }
+func neg(a *E) *E               { return &E{K: "neg", A: []*E{a}} }
+func par(a *E) *E               { return &E{K: "par", A: []*E{a}} }
+func bin(op string, a, b *E) *E { return &E{K: "bin", V: op, A: []*E{a, b}} }
+func call(f string, a ...*E) *E { return &E{K: "call", V: f, A: a} }
+func (e *E) isLeaf() bool       { return e.K == "num" || e.K == "str" || e.K == "bool" || e.K == "ref" }
 func (e *E) clone() *E {
 	c := &E{K: e.K, V: e.V}
 	for _, a := range e.A {
